@@ -81,6 +81,21 @@ CHECKS["C06"] = dict(
     technique="symbolic execution of the numba kernel sources with SMT-pruned branches + z3 (nlsat) identity/inequality queries; instantiated trig/sqrt axioms",
     design="DESIGN.md section 5 C06")
 
+CHECKS["C07"] = dict(
+    text="Symbolic checking of both transfer kernels (scalar/vector, 2D/3D): with ARBITRARY symbolic weights, fields and prior Eulerian content, sum_i F_i (I u)_i = dx^d sum_c (S F)_c u_c for "
+         "enumerated marker index patterns (generic, shared cell, identical markers, overlapping windows, admissible edge), spreading accumulates (second call adds again) and touches only the "
+         "marker windows; with the real Peskin/cosine weights of markers with symbolic offsets the grid integral of the spread force equals the total marker force and (Peskin) the torque about a "
+         "symbolic reference point is preserved.",
+    technique="symbolic execution of the numba transfer kernel sources + z3 (bilinear identities; nlsat with sqrt/cos axioms for the moment claims)",
+    design="DESIGN.md section 5 C07")
+CHECKS["C10"] = dict(
+    text="Symbolic checking over histories: the real ImmersedBodyFlowInteraction/VirtualBoundaryForcing start from an arbitrary symbolic state and run every operation sequence up to the stated "
+         "length over {evaluate, evaluate body forces, step(dt_i), move body, change flow}; after each operation the whole state (integral, mismatch, force, clock, Eulerian forcing, untouched "
+         "inputs) equals the closed-form reference; length-1 sequences are the inductive step that extends the claim to histories of any length. Constructor paths (three spacing regimes) give the "
+         "h^(d-1) coefficient scaling; two bodies sharing one field superpose in either order, or the resetting body overwrites.",
+    technique="symbolic execution of the real classes from an arbitrary symbolic state over enumerated operation sequences (inductive step + bounded histories); identities decided by the canonical linear form / z3",
+    design="DESIGN.md section 5 C10")
+
 NOT_APPLICABLE = {
     "C02": "convergence of whole simulations over resolution families: thousands of time steps of floating-point code on 32^2..128^2 grids; no bound on steps/sizes under which a solver query is still the property (DESIGN.md section 5 C02). Its solver-decidable ingredients are claimed under C01, C03, C05, C16.",
 }
